@@ -123,7 +123,7 @@ Fixpoint fold (e : fexpr) : fexpr :=
   | FCall n ps args => FCall n (map (fun p => (fst p, fold (snd p))) ps) (map fold args)
   | FDiff cs => FDiff (map (fun c => match c with Some x => Some (fold x) | None => None end) cs)
   | FLitI v _ => FLitI v dec_fmt
-  | FLitF b => if f_is_nan b then FLitF NAN_BITS else FLitF b
+  | FLitF b => FLitF b
   | FVar (VNamed None n) =>
       if String.eqb n "INF" then FLitF INF_BITS
       else if String.eqb n "NAN" then FLitF NAN_BITS
